@@ -68,7 +68,7 @@ Proof.
   unfold reader_skip. destruct (has_bytes d n) eqn:E.
   - apply len_nat in E. rewrite take_bytes_ok by exact E. intros X; inversion X; subst. unfold tot, rem. simpl.
     rewrite skipn_length. repeat split; lia.
-  - intros X; inversion X; subst. auto.
+  - discriminate.
 Qed.
 
 Lemma read_varint_loop_nf : forall k s r d, nofault (read_varint_loop k s r d).
